@@ -79,6 +79,29 @@ class UEqOnly(UBase):
         raise RuntimeError("__ne__ must not be called")
 
 
+class UNeOnly(UBase):
+    """Only __ne__ (always False); `==` falls back to identity: == and != are not complementary."""
+    tag = "u_ne_only"
+
+    @_logged("__ne__")
+    def __ne__(self, o):
+        return False
+
+
+class UEqNeBoth(UBase):
+    """__eq__ and __ne__ both answer True."""
+    tag = "u_eq_ne_both"
+    __hash__ = object.__hash__
+
+    @_logged("__eq__")
+    def __eq__(self, o):
+        return True
+
+    @_logged("__ne__")
+    def __ne__(self, o):
+        return True
+
+
 class ULtOnly(UBase):
     """Only __lt__: `<` works, `<=` raises TypeError."""
     tag = "u_lt_only"
@@ -244,6 +267,7 @@ FACTORY = {
     "u_eq_only": UEqOnly, "u_lt_only": ULtOnly, "u_ordered": UOrdered, "u_bool_raises": UBoolRaises,
     "u_bool_false": UBoolFalse, "u_len0": ULen0, "u_len3": ULen3, "u_len_raises": ULenRaises,
     "u_contains": UContains, "u_contains_raises": UContainsRaises, "u_eq_nonbool": UEqNonBool,
+    "u_ne_only": UNeOnly, "u_eq_ne_both": UEqNeBoth,
     # exceptions (for EXC_MATCH: left = raised thing, right = handler expression)
     "e_value": lambda: ValueError("x"), "e_key": lambda: KeyError("k"), "e_my": lambda: MyError("m"),
     "e_base": lambda: BaseException("b"), "e_stop": lambda: StopIteration(),
